@@ -294,6 +294,24 @@ pub fn oracle(rng: &mut Rng, n: usize, tier: &str) -> OracleReport {
                 ),
             }
         }
+        // … and the same for the back-reference serializer against its unlimited output
+        if let Ok(br) = clvmr::serde::node_to_bytes_backrefs(&a, node) {
+            let limits: Vec<usize> = if br.len() <= 80 { (0..=br.len() + 1).collect() } else {
+                let mut v: Vec<usize> = (0..10).map(|_| rng.below(br.len() as u64 + 2) as usize).collect();
+                v.extend([0, 1, br.len() - 1, br.len(), br.len() + 1]);
+                v
+            };
+            for l in limits {
+                match clvmr::serde::node_to_bytes_backrefs_limit(&a, node, l) {
+                    Ok(b) if l >= br.len() && b == br => {}
+                    Err(clvmr::error::EvalErr::OutOfMemory) if l < br.len() => {}
+                    other => rep.fail(
+                        "limited_ser_br",
+                        format!("tree={} limit={} len={} got {:?}", th, l, br.len(), other.map(|b| hex::encode(b)).map_err(|e| err_kind(&e))),
+                    ),
+                }
+            }
+        }
     }
     rep
 }
